@@ -707,15 +707,41 @@ def foreign_type_value(rng, fam):
     return rng.choice(pool)
 
 
+FWD_KEYS = {'same': ('C03/{low}-unknown-key-rejected', 'C03/{low}-unknown-key-changes-fields'),
+            'foreign': ('C03/unknown-key-value-type-asserted-before-field-lookup', 'C03/{low}-unknown-key-changes-fields'),
+            'param': ('C03/unknown-key-collides-with-decoder-parameter',) * 2,
+            'method': ('C03/unknown-key-collides-with-method-name',) * 2}
+
+
+def judge_fwd_jsonfield(cls, t2, mode, k, v):
+    """t2: a JSON text of cls with unknown keys; expected = decoding of the same text restricted to known fields."""
+    fam = cls.__name__
+    F = set(defaults_of(cls))
+    d2 = json.loads(t2)
+    known = {a: b for a, b in d2.items() if a in F}
+    base = cls.from_json(json.dumps(known)) if known else None
+    base_d = czd(defaults_of(cls)) if base is None else czd(base.__dict__)
+    w = {'kind': 'fwd-jsonfield', 'class': fam, 'text': short(t2), 'unknown_key': k, 'unknown_value': short(v),
+         'mode': mode}
+    keys = [x.format(low=fam.lower()) for x in FWD_KEYS[mode]]
+    try:
+        y = cls.from_json(t2)
+    except Exception as e:
+        w['exception'] = f'{type(e).__name__}: {e}'[:300]
+        return (keys[0], 'decoding tolerates an unknown key', w)
+    got = None if y is None else czd(y.__dict__)
+    if got != base_d:
+        w['expected'], w['decoded'] = base_d, got
+        return (keys[1], 'known fields are unchanged by an unknown key (and nothing else appears)', w)
+    return None
+
+
 def fwd_jsonfield(ctx, rng, x, text):
     """Unknown keys injected at the top level of a JSONField text."""
     cls = type(x)
     fam = cls.__name__
-    low = fam.lower()
     F = set(defaults_of(cls))
     with quiet():
-        base = cls.from_json(text) if text else None
-        base_d = czd(defaults_of(cls)) if base is None else czd(base.__dict__)
         d = json.loads(text) if text else {}
         plans = [('same', rng.choice(UNKNOWN_KEYS), same_type_value(rng, fam)),
                  ('same', rng.choice(UNKNOWN_KEYS), same_type_value(rng, fam)),
@@ -737,23 +763,9 @@ def fwd_jsonfield(ctx, rng, x, text):
             ctx.count('fwd:' + fam)
             ctx.count('fwd-mode:' + mode)
             ctx.seen(['fwd', fam, t2], True)
-            w = {'kind': 'fwd-jsonfield', 'class': fam, 'text': short(t2), 'unknown_key': k, 'unknown_value': short(v),
-                 'mode': mode}
-            keys = {'same': (f'C03/{low}-unknown-key-rejected', f'C03/{low}-unknown-key-changes-fields'),
-                    'foreign': ('C03/unknown-key-value-type-asserted-before-field-lookup',
-                                f'C03/{low}-unknown-key-changes-fields'),
-                    'param': ('C03/unknown-key-collides-with-decoder-parameter',) * 2,
-                    'method': ('C03/unknown-key-collides-with-method-name',) * 2}[mode]
-            try:
-                y = cls.from_json(t2)
-            except Exception as e:
-                w['exception'] = f'{type(e).__name__}: {e}'[:300]
-                ctx.violation(keys[0], 'decoding tolerates an unknown key', w)
-                continue
-            got = None if y is None else czd(y.__dict__)
-            if got != base_d:
-                w['expected'], w['decoded'] = base_d, got
-                ctx.violation(keys[1], 'known fields are unchanged by an unknown key (and nothing else appears)', w)
+            res = judge_fwd_jsonfield(cls, t2, mode, k, v)
+            if res is not None:
+                ctx.violation(*res)
 
 
 def sweep_jsonfield(ctx, rng, x, do_fwd=True):
@@ -1192,11 +1204,10 @@ def replay(ctx, case):
             sweep_jsonfield(ctx, rng, classes[w['class']](**w['fields']), do_fwd=False)
             return
         if kind == 'fwd-jsonfield' and w.get('class') in classes and 'chars>' not in w['text']:
-            cls = classes[w['class']]
-            try:
-                cls.from_json(w['text'])
-            except Exception as e:
-                ctx.violation(case['key'], case.get('clause', ''), dict(w, exception=f'{type(e).__name__}: {e}'[:300]))
+            with quiet():
+                res = judge_fwd_jsonfield(classes[w['class']], w['text'], w['mode'], w['unknown_key'], w['unknown_value'])
+            if res is not None:
+                ctx.violation(*res)
             return
         if kind == 'fwd-maintenance' and 'chars>' not in w['text']:
             from fim.slivers.maintenance_mode import MaintenanceInfo
